@@ -108,6 +108,13 @@ func genFuzz(g *genCtx) {
 		}
 		n++
 	}
+	// a dispatcher given the front part of an image of type `as` (command id intact): judged like that type's decoder
+	emitAs := func(fn string, in []byte, as string) {
+		if g.mine(n) {
+			g.emit(Case{"fn": fn, "in": B(in), "as": as})
+		}
+		n++
+	}
 	subst := []byte{0, 1, 0x7f, 0x80, 0xff}
 	protoOf := func(tn string) string {
 		switch tn[:6] {
@@ -146,7 +153,14 @@ func genFuzz(g *genCtx) {
 				if !g.thorough() && len(img) > 120 && k > 40 && k < len(img)-40 && k%3 != 0 {
 					continue
 				}
-				both(img[:k])
+				emit(tn, img[:k])
+				if d := protoOf(tn); d != "" && it == 0 {
+					if k >= 8 {
+						emitAs(d, img[:k], tn)
+					} else {
+						emit(d, img[:k])
+					}
+				}
 			}
 			// every length / count octet substituted
 			offs := slotOffsets(tn, a)
@@ -286,6 +300,7 @@ func runFuzz(c Case, tr *Tracer) {
 		call = func(in []byte) bool { return ctor().IDecode(in) != nil }
 	} else {
 		call = auxFns[fn]
+		tn = caseStr(c, "as")
 	}
 	arg := append([]byte{}, in...)
 	if caseInt(c, "t")%2 == 0 {
